@@ -2,8 +2,10 @@
 //! case, the inputs and the implementation's canonicalised result; `modelrun` (the extracted Coq
 //! model) evaluates the same inputs and ./check diffs the two.  `primserver` serves the model's
 //! cryptographic primitive calls with the same RustCrypto crates the implementation links.
+mod canon;
 mod prims;
 mod rng;
+mod t1_addr;
 mod t1_pw;
 mod util;
 
@@ -19,6 +21,7 @@ pub fn emit_case(w: &mut dyn Write, args: &[String], exec: fn(&[&str]) -> Vec<St
 fn exec_case(f: &[&str]) -> Vec<String> {
     match f[0] {
         "pw" => t1_pw::exec(f),
+        "s5enc" | "s5dec" | "s5try" | "vmw" | "vmr" => t1_addr::exec(f),
         _ => vec![format!("UNKNOWN-COMPONENT {}", f[0])],
     }
 }
@@ -55,6 +58,7 @@ fn main() {
             util::quiet_panics();
             match comp {
                 "pw" => t1_pw::generate(&mut out, seed, thorough),
+                "addr" => t1_addr::generate(&mut out, seed, thorough),
                 _ => {
                     eprintln!("unknown component {}", comp);
                     std::process::exit(2);
